@@ -146,6 +146,14 @@ theorem reservePut_f5 (s : SlotBelt) (p : Nat) : F5 s (s.reservePut p).1 := by
   unfold reservePut
   exact (⟨rfl, rfl, rfl, rfl, rfl⟩ : F5 s { s with nextTid := s.nextTid + 1, putQ := s.putQ ++ [{ id := s.nextTid, proc := p }] }).trans (F5.trigPut _)
 
+theorem reservePutP_f5 (s : SlotBelt) (p : Nat) (pr : Int) : F5 s (s.reservePutP p pr).1 := by
+  unfold reservePutP
+  exact (⟨rfl, rfl, rfl, rfl, rfl⟩ : F5 s { s with nextTid := s.nextTid + 1, putQ := stableSort (s.putQ ++ [{ id := s.nextTid, proc := p, prio := pr }]) }).trans (F5.trigPut _)
+
+theorem reserveGetP_f5 (s : SlotBelt) (p : Nat) (pr : Int) : F5 s (s.reserveGetP p pr).1 := by
+  unfold reserveGetP
+  exact (⟨rfl, rfl, rfl, rfl, rfl⟩ : F5 s { s with nextTid := s.nextTid + 1, getQ := stableSort (s.getQ ++ [{ id := s.nextTid, proc := p, prio := pr }]) }).trans (F5.trigGet _)
+
 theorem reserveGet_f5 (s : SlotBelt) (p : Nat) : F5 s (s.reserveGet p).1 := by
   unfold reserveGet
   exact (⟨rfl, rfl, rfl, rfl, rfl⟩ : F5 s { s with nextTid := s.nextTid + 1, getQ := s.getQ ++ [{ id := s.nextTid, proc := p }] }).trans (F5.trigGet _)
@@ -324,6 +332,8 @@ theorem KS.step {s : SlotBelt} (h : KS s) (op : Op) : KS (s.step op).1 := by
   cases op with
   | reservePut p => exact h'.f5 (reservePut_f5 _ p)
   | reserveGet p => exact h'.f5 (reserveGet_f5 _ p)
+  | reservePutP p pr => exact h'.f5 (reservePutP_f5 _ p pr)
+  | reserveGetP p pr => exact h'.f5 (reserveGetP_f5 _ p pr)
   | put p t x => exact h'.put p t x
   | get p t => exact h'.f5 (get_f5 _ p t)
   | cancelPut t => exact h'.f5 (cancelPut_f5 _ t)
